@@ -74,6 +74,11 @@ type ptyProc struct {
 // startOnPty starts path as session leader with the slave of a fresh 50x250
 // pty as controlling terminal and stdin/stdout/stderr.
 func startOnPty(path string, args, env []string, dir string) (*ptyProc, error) {
+	return startOnPtyAs(path, args, env, dir, 0)
+}
+
+// startOnPtyAs is startOnPty with the program running as user uid (0 = as the harness).
+func startOnPtyAs(path string, args, env []string, dir string, uid int) (*ptyProc, error) {
 	master, slave, err := openPty(50, 250)
 	if err != nil {
 		return nil, err
@@ -83,6 +88,9 @@ func startOnPty(path string, args, env []string, dir string) (*ptyProc, error) {
 	cmd.Dir = dir
 	cmd.Stdin, cmd.Stdout, cmd.Stderr = slave, slave, slave
 	cmd.SysProcAttr = &syscall.SysProcAttr{Setsid: true, Setctty: true, Ctty: 0}
+	if uid != 0 {
+		cmd.SysProcAttr.Credential = &syscall.Credential{Uid: uint32(uid), Gid: uint32(uid)}
+	}
 	if err := cmd.Start(); err != nil {
 		master.Close()
 		slave.Close()
